@@ -66,7 +66,7 @@ func docxItem(name string, numID, lvl int) docxKind {
 			style = "ListParagraph"
 		}
 		p := docxw.Para{Style: style, NumID: numID, ILvl: lvl, Content: []docxw.Inline{rn(docxw.T(a))}}
-		return []docxw.Block{p}, []xBlock{{kind: kItem, level: lvl, list: numID, loose: !o.nums, atoms: atomsOf(a)}}
+		return []docxw.Block{p}, []xBlock{{kind: kItem, level: lvl, list: numID, ordered: docxListOrdered[numID], loose: !o.nums, atoms: atomsOf(a)}}
 	}}
 }
 
@@ -165,13 +165,15 @@ func docxAlphabet() []docxKind {
 		{"lbt", []string{"styled-numpr"}, func(g *gen, o docxOpt) ([]docxw.Block, []xBlock) {
 			a := g.tok() // numPr on a paragraph that carries the named body style
 			p := docxw.Para{Style: "BodyText", NumID: 1, ILvl: 0, Content: []docxw.Inline{rn(docxw.T(a))}}
-			return []docxw.Block{p}, []xBlock{{kind: kItem, level: 0, list: 1, loose: !o.nums, feat: "styled-numpr", atoms: atomsOf(a)}}
+			return []docxw.Block{p}, []xBlock{{kind: kItem, level: 0, list: 1, ordered: false, loose: !o.nums, feat: "styled-numpr", atoms: atomsOf(a)}}
 		}},
 		docxItem("l0", 1, 0),
 		docxItem("l1", 1, 1),
 		docxItem("l2", 1, 2),
 		docxItem("n0", 2, 0),
 		docxItem("n1", 2, 1),
+		docxItem("c0", 3, 0), // lowerLetter list that starts at 3
+		docxItem("d0", 4, 0), // second w:num on the decimal definition, with w:lvlOverride/w:startOverride
 		{"t11", nil, func(g *gen, o docxOpt) ([]docxw.Block, []xBlock) {
 			c, ps := cellP(g, 1)
 			t := docxw.Table{Cols: 1, Rows: []docxw.Row{{Cells: []docxw.Cell{c}}}}
@@ -313,7 +315,7 @@ type docxCase struct {
 }
 
 // buildDocx assembles the document for a sequence of alphabet letters.
-func buildDocx(alpha []docxKind, seq []int, o docxOpt) docxCase {
+func buildDocx(alpha []docxKind, seq []int, o docxOpt, layout string) docxCase {
 	g := &gen{}
 	var c docxCase
 	fs := map[string]bool{}
@@ -346,7 +348,7 @@ func buildDocx(alpha []docxKind, seq []int, o docxOpt) docxCase {
 		c.opts.Styles = docxStyles()
 	}
 	if o.nums {
-		c.opts.Nums = docxw.DefaultNums()
+		c.numbering(layout)
 	}
 	if o.header {
 		c.doc.Header = []docxw.Para{docxw.P("Hdr01 running head")}
@@ -412,4 +414,83 @@ func hasNestedTable(t docxw.Table) bool {
 		}
 	}
 	return false
+}
+
+// Logical lists of the DOCX alphabet (xBlock.list / Para.NumID before the layout is applied):
+// 1 = bullet (3 levels), 2 = decimal (3 levels), 3 = lowerLetter starting at 3,
+// 4 = another numbering instance of the decimal definition with a start override.
+var docxListOrdered = map[int]bool{1: false, 2: true, 3: true, 4: true}
+
+var docxListLevels = map[int][]docxw.Level{
+	1: {{Fmt: "bullet"}, {Fmt: "bullet"}, {Fmt: "bullet"}},
+	2: {{Fmt: "decimal"}, {Fmt: "decimal"}, {Fmt: "decimal"}},
+	3: {{Fmt: "lowerLetter", Start: 3}, {Fmt: "lowerRoman", Start: 2}, {Fmt: "decimal"}},
+}
+
+// docxNumLayouts: how the logical lists are laid out in word/numbering.xml. The reading of the body
+// must not depend on it: the number of w:abstractNum definitions, their declaration order, their
+// ids and the w:num -> w:abstractNum indirection are all free.
+var docxNumLayouts = []string{"id", "rev", "rot", "min"}
+
+// numbering writes the numbering part for the chosen layout and renames the numIds of the body.
+func (c *docxCase) numbering(layout string) {
+	type def struct{ list, abs int } // logical definition list (1..3) -> abstractNumId
+	var abs []def
+	numID := map[int]int{}
+	var numOrder []int // logical lists in w:num declaration order
+	switch layout {
+	case "rev": // definitions and instances declared in reverse order, ids from 0
+		abs = []def{{3, 0}, {2, 1}, {1, 2}}
+		numID = map[int]int{1: 1, 2: 2, 3: 3, 4: 4}
+		numOrder = []int{4, 3, 2, 1}
+	case "rot": // rotated declaration order, sparse non-monotone ids
+		abs = []def{{2, 5}, {1, 0}, {3, 9}}
+		numID = map[int]int{1: 7, 2: 2, 3: 5, 4: 3}
+		numOrder = []int{3, 1, 4, 2}
+	case "min": // only what the body uses, in order of first use (1..3 definitions)
+		used := map[int]bool{}
+		for _, b := range c.doc.Body {
+			if p, ok := b.(docxw.Para); ok && p.NumID > 0 && !used[p.NumID] {
+				used[p.NumID] = true
+				numOrder = append(numOrder, p.NumID)
+				numID[p.NumID] = 10 + p.NumID
+			}
+		}
+		seen := map[int]bool{}
+		for _, l := range numOrder {
+			d := l
+			if d == 4 {
+				d = 2
+			}
+			if !seen[d] {
+				seen[d] = true
+				abs = append(abs, def{d, len(abs)})
+			}
+		}
+	default: // "id": three definitions in the order bullet, decimal, lowerLetter; numId n -> abstractNum n
+		abs = []def{{1, 1}, {2, 2}, {3, 3}}
+		numID = map[int]int{1: 1, 2: 2, 3: 3, 4: 4}
+		numOrder = []int{1, 2, 3, 4}
+	}
+	absOf := map[int]int{}
+	c.opts.Abstracts = []docxw.Abstract{}
+	for _, d := range abs {
+		absOf[d.list] = d.abs
+		c.opts.Abstracts = append(c.opts.Abstracts, docxw.Abstract{ID: d.abs, Levels: docxListLevels[d.list]})
+	}
+	c.opts.Nums = []docxw.Num{}
+	for _, l := range numOrder {
+		n := docxw.Num{ID: numID[l], AbstractID: absOf[l]}
+		if l == 4 {
+			n.AbstractID = absOf[2]
+			n.StartOverride = map[int]int{0: 5}
+		}
+		c.opts.Nums = append(c.opts.Nums, n)
+	}
+	for i, b := range c.doc.Body {
+		if p, ok := b.(docxw.Para); ok && p.NumID > 0 {
+			p.NumID = numID[p.NumID]
+			c.doc.Body[i] = p
+		}
+	}
 }
